@@ -41,6 +41,15 @@ def gen_cases(ctx):
         out.append({'part': PART, 'kind': 'jswriter', 'port': 'js', 'table': table, 'fail_at': fail_at, 'close': r.random() < 0.5})
     for q in ('select a1', 'select a2, a1 where a1 == "abc"'):
         out.append({'part': PART, 'kind': 'jswriter_query', 'port': 'js', 'qjs': q, 'nlines': r.randint(40000, 60000), 'fail_at': r.choice([1, 2, 7])})
+    for port in ('py', 'js'):
+        for _ in range(6):
+            # DISTINCT through the CSV writer with values the writer has to turn into text / quote (numbers, cells with the delimiter):
+            # duplicates are removed by VALUE whatever the writer does to the record it is handed (seeded change C13-9)
+            vals = r.sample(['x,y', 'ab', 'q"r', 'k', 'zz z'], 3)
+            rows = [[r.choice(vals), r.choice(['u', 'vv', 'w,w'])] for _ in range(r.randint(4, 9))]
+            top = r.choice([None, None, 2])
+            q = 'select %sdistinct a1, %s' % ('top %d ' % top if top else '', 'len(a2)' if port == 'py' else 'a2.length')
+            out.append({'part': PART, 'kind': 'distinct_csv', 'port': port, 'q': q, 'qjs': q, 'rows': rows, 'top': top})
     for pol in ('bogus', 'Quoted', ''):
         out.append({'part': PART, 'kind': 'jspolicy', 'port': 'js', 'out_policy': pol})
     return out
@@ -59,6 +68,13 @@ def expected(c):
         return {'same_as_write': True}
     if k == 'pandas_join':
         return {'error': None if c['ok'] else ['P', 0, None]}
+    if k == 'distinct_csv':
+        seen, res = set(), []
+        for a1, a2 in c['rows']:
+            if (a1, len(a2)) not in seen:
+                seen.add((a1, len(a2)))
+                res.append([a1, str(len(a2))])
+        return {'rows': res if c['top'] is None else res[:c['top']]}
     if k == 'jswriter':
         nrec = len(c['table'])
         f = c['fail_at']
@@ -98,6 +114,8 @@ def rel(c, e, g):
             if g[part]['error'] != e['error']:
                 return False
         return e['error'] is not None or g['pandas']['rows'] == g['table']['rows']
+    if k == 'distinct_csv':
+        return g.get('error') is None and g.get('rows') == e['rows']
     if k == 'jswriter':
         return g['writes'] == e['writes'] and g['finish'] == e['finish'] and (e['text'] is None or g['text'] == e['text'])
     if k == 'jswriter_query':
@@ -132,7 +150,7 @@ def impl(cases):
     return got
 
 
-CORRUPT = {'head': lambda e: {'records': [['CANARY']]}, 'sqlite_head': lambda e: {'records': [['CANARY']]}, 'write_all': lambda e: {'same_as_write': False},
+CORRUPT = {'distinct_csv': lambda e: {'rows': [['CANARY']]}, 'head': lambda e: {'records': [['CANARY']]}, 'sqlite_head': lambda e: {'records': [['CANARY']]}, 'write_all': lambda e: {'same_as_write': False},
            'pandas_join': lambda e: {'error': ['CANARY', 0, None]}, 'jswriter': lambda e: {'writes': ['CANARY'], 'finish': 'CANARY', 'text': None},
            'jswriter_query': lambda e: {'outcome': 'CANARY'}, 'jspolicy': lambda e: {'error': 'CANARY'}}
 
